@@ -81,10 +81,11 @@ type asEngine struct {
 	viol        string
 	fixedLaunch bool
 	// monitors
-	expSubs       map[string]int          // "ty@path" -> cid, the harness's own subscription bookkeeping
-	pubExpect     map[int]map[int]bool    // publication -> expected subscriber cids
-	pubGot        map[int]map[int]int     // publication -> deliveries per cid
+	expSubs       map[string]int       // "ty@path" -> cid, the harness's own subscription bookkeeping
+	pubExpect     map[int]map[int]bool // publication -> expected subscriber cids
+	pubGot        map[int]map[int]int  // publication -> deliveries per cid
 	nextPub       int
+	hadRef        map[string]bool
 	failedCount   map[int]int
 	decided       map[int]int
 	escalated     map[int]int
@@ -294,6 +295,11 @@ func (e *asEngine) behave(c *asCtx, ctx vivid.ActorContext, sid int) {
 	}
 	e.lifecycleMonitor(c, trig)
 	for _, a := range e.scripts[sid][trig] {
+		if a.kind == "cancel" && c.ctx != nil {
+			for _, r := range c.ctx.VerifJobRefs() {
+				e.hadRef[fmt.Sprintf("%d/%s", c.cid, r)] = true
+			}
+		}
 		switch a.kind {
 		case "panic":
 			panic("scripted panic")
@@ -334,6 +340,50 @@ func (e *asEngine) behave(c *asCtx, ctx vivid.ActorContext, sid int) {
 			ctx.Become(func(cx vivid.ActorContext) { e.behave(c, cx, sid) })
 		case "unbecome":
 			ctx.UnBecome()
+		case "once", "loop":
+			e.evHist["sched-"+a.kind]++
+			msg := &asUserMsg{ID: 0, K: a.n}
+			var err error
+			if a.kind == "once" {
+				err = ctx.Scheduler().Once(ctx.Ref(), time.Hour, msg, vivid.WithSchedulerReference(a.t))
+			} else {
+				err = ctx.Scheduler().Loop(ctx.Ref(), time.Hour, msg, vivid.WithSchedulerReference(a.t))
+			}
+			if err != nil {
+				e.events = append(e.events, fmt.Sprintf("sched-err:%d", c.cid))
+			}
+		case "cron":
+			expr := "0 0 0 1 1 ? 2099" // valid, far in the future
+			if a.n == 0 {
+				expr = "not a cron expression"
+			}
+			if err := ctx.Scheduler().Cron(ctx.Ref(), expr, &asUserMsg{ID: 0, K: 1}, vivid.WithSchedulerReference(a.t)); err != nil {
+				e.events = append(e.events, fmt.Sprintf("cron-err:%d", c.cid))
+				e.evHist["cron-invalid"]++
+			}
+		case "cancel":
+			had := false
+			for _, r := range c.ctx.VerifJobRefs() {
+				if r == a.t {
+					had = true
+				}
+			}
+			err := ctx.Scheduler().Cancel(a.t)
+			res := "ok"
+			if err != nil {
+				res = "err"
+				if !had {
+					res = "notfound"
+				}
+			} else if !had {
+				res = "ok-but-unknown" // C20: Cancel of an unknown reference must return not-found
+				e.viol = "CANCEL-UNKNOWN: Cancel of a reference the actor never scheduled returned nil"
+			}
+			e.evHist["cancel:"+res]++
+			e.events = append(e.events, fmt.Sprintf("cancel:%d:%s:%s", c.cid, a.t, res))
+		case "sclear":
+			e.evHist["sched-clear"]++
+			ctx.Scheduler().Clear()
 		case "sub":
 			e.evHist["es-sub"]++
 			ctx.EventStream().Subscribe(ctx, asEvent(a.n, 0))
@@ -368,6 +418,11 @@ func (e *asEngine) behave(c *asCtx, ctx vivid.ActorContext, sid int) {
 			ctx.EventStream().Publish(ctx, asEvent(a.n, e.nextPub))
 		}
 	}
+}
+
+// ctxHadRef: did the context's scheduler hold that reference just before the Cancel call?
+func ctxHadRef(e *asEngine, c *asCtx, ref string) bool {
+	return e.hadRef[fmt.Sprintf("%d/%s", c.cid, ref)]
 }
 
 func (e *asEngine) strategy(c *asCtx, kind int) vivid.SupervisionStrategy {
@@ -513,6 +568,14 @@ func parseAsAction(t string) (asAction, bool) {
 		return asAction{kind: p[0]}, len(p) == 1
 	case p[0] == "unstash" && len(p) == 2:
 		return asAction{kind: "unstash", n: atoi(p[1])}, true
+	case (p[0] == "once" || p[0] == "loop") && len(p) == 3:
+		return asAction{kind: p[0], t: p[1], n: atoi(p[2])}, true
+	case p[0] == "cron" && len(p) == 3:
+		return asAction{kind: "cron", n: atoi(p[1]), t: p[2]}, true
+	case p[0] == "cancel" && len(p) == 2:
+		return asAction{kind: "cancel", t: p[1]}, true
+	case p[0] == "sclear" && len(p) == 1:
+		return asAction{kind: "sclear"}, true
 	case (p[0] == "sub" || p[0] == "unsub" || p[0] == "pub") && len(p) == 2:
 		return asAction{kind: p[0], n: atoi(p[1])}, true
 	case p[0] == "unsuball" && len(p) == 1:
@@ -562,6 +625,7 @@ func (e *asEngine) reset(fixedLaunch bool) string {
 	e.seen = map[int][]string{}
 	e.sentUser = map[int]int{}
 	e.killedEvents = map[int]int{}
+	e.hadRef = map[string]bool{}
 	e.failedCount, e.decided, e.escalated = map[int]int{}, map[int]int{}, map[int]int{}
 	e.expSubs, e.pubExpect, e.pubGot, e.nextPub = map[string]int{}, map[int]map[int]bool{}, map[int]map[int]int{}, 0
 	e.pendingLaunch = map[int]bool{}
@@ -678,8 +742,8 @@ func (e *asEngine) digest() string {
 		if len(stash) > 0 {
 			sid = strings.Join(stash, ",")
 		}
-		parts = append(parts, fmt.Sprintf("%d=%s:%s%s:i%d:s%d:u%d:st[%s]:ch[%s]:w[%s]", c.cid, c.path, "RKD"[st.State:st.State+1], flags, c.inc,
-			ms.SystemLen, ms.UserLen, sid, strings.Join(st.Children, ","), strings.Join(st.Watchers, ",")))
+		parts = append(parts, fmt.Sprintf("%d=%s:%s%s:i%d:s%d:u%d:st[%s]:ch[%s]:w[%s]:j[%s]", c.cid, c.path, "RKD"[st.State:st.State+1], flags, c.inc,
+			ms.SystemLen, ms.UserLen, sid, strings.Join(st.Children, ","), strings.Join(st.Watchers, ","), strings.Join(c.ctx.VerifJobRefs(), ",")))
 	}
 	e.eventMonitors()
 	reg, _ := e.sys.VerifRegistered()
@@ -706,7 +770,43 @@ func (e *asEngine) digest() string {
 		subs = append(subs, x)
 	}
 	sort.Strings(subs)
-	return fmt.Sprintf("ev=%s | %s | reg[%s] dl[%s] subs[%s]", ev, strings.Join(parts, " "), strings.Join(reg, ","), dl, strings.Join(subs, ","))
+	var jt []string
+	for _, k := range e.sys.VerifJobKeys() {
+		jt = append(jt, strings.TrimPrefix(k, "default::"))
+	}
+	sort.Strings(jt)
+	// C20: every queued job is recorded by a live owner (a terminated actor's jobs are gone)
+	owned := map[string]bool{}
+	ownerOf := map[string]string{}
+	for _, c := range e.ctxs {
+		if c.ctx == nil {
+			continue
+		}
+		for _, r := range c.ctx.VerifJobRefs() {
+			inTable := map[string]bool{}
+			for _, k := range jt {
+				inTable[k] = true
+			}
+			for _, k := range []string{c.path + "#" + r, c.path + ":" + r} {
+				owned[k] = true
+				if !inTable[k] {
+					continue
+				}
+				who := fmt.Sprintf("(%s, %q)", c.path, r)
+				if prev, ok := ownerOf[k]; ok && prev != who && e.viol == "" {
+					e.viol = fmt.Sprintf("JOB-KEY-COLLISION: %s and %s map to the same job key %q: the second job is silently not scheduled and clearing one cancels the other", prev, who, k)
+				}
+				ownerOf[k] = who
+				break
+			}
+		}
+	}
+	for _, k := range jt {
+		if !owned[k] && e.viol == "" {
+			e.viol = fmt.Sprintf("JOB-SURVIVES-OWNER: job %s is still in the shared queue but no actor's scheduler records it (its owner terminated, restarted or cleared it)", k)
+		}
+	}
+	return fmt.Sprintf("ev=%s | %s | reg[%s] dl[%s] subs[%s] jobs[%s]", ev, strings.Join(parts, " "), strings.Join(reg, ","), dl, strings.Join(subs, ","), strings.Join(jt, ","))
 }
 
 func (e *asEngine) extTarget(spec string) vivid.ActorRef {
@@ -1060,6 +1160,7 @@ func (e *asEngine) Generate(c *Ctx) {
 	}
 	e.supervisionMatrix(c)
 	e.eventStreamScenarios(c)
+	e.schedulerScenarios(c)
 	for i := 0; i < n; i++ {
 		e.randomScenario(c)
 	}
@@ -1280,5 +1381,41 @@ func (e *asEngine) eventStreamScenarios(c *Ctx) {
 		c.Do("check")
 		c.R.Nontrivial()
 		c.R.Hit("es-scenario")
+	}
+}
+
+// schedulerScenarios: Once / Loop / Cron / Cancel / Clear with shared and reused references on
+// three actors, with kills and supervised restarts in between; delays are an hour, so the
+// lock-step compares the registries (per-actor references and the shared job queue), not firing (C20).
+func (e *asEngine) schedulerScenarios(c *Ctx) {
+	n := 40
+	if c.Thorough() {
+		n = 2000
+	}
+	for i := 0; i < n; i++ {
+		c.Case("reset 1")
+		c.Do("script 1 u1:once.r1.1;u2:loop.r1.1;u3:once.r2.1;u4:loop.r2.1;u5:cancel.r1;u6:cancel.r2;u7:sclear;u8:cron.1.r3;u9:cron.0.r3;u10:cancel.r3;u11:panic;u12:once.x:y.1;u13:once.x:x:y.1")
+		c.Do("script 2 launch:spawn.x.1.0.-.0,spawn.y.1.0.-.0,spawn.x:x.1.0.-.0")
+		c.Do("spawn p 2 1 1 0")
+		e.drain(c, 30)
+		steps := 8 + c.Rng.Intn(25)
+		for s := 0; s < steps; s++ {
+			who := []string{"x", "y", "x:x"}[c.Rng.Intn(3)]
+			switch x := c.Rng.Intn(30); {
+			case x == 0:
+				c.Do("kill p:/p/" + who + " 0")
+			case x == 1:
+				c.Do("tell p:/p/" + who + " 11")
+			default:
+				c.Do(fmt.Sprintf("tell p:/p/%s %d", who, 1+c.Rng.Intn(13)))
+			}
+			if c.Rng.Chance(2, 3) {
+				e.drain(c, 3)
+			}
+		}
+		e.drain(c, 200)
+		c.Do("check")
+		c.R.Nontrivial()
+		c.R.Hit("sched-scenario")
 	}
 }
